@@ -4,9 +4,9 @@
    done_of L xs  : what it emits when the key completes.
    The local machines are the `bl` components of `den`; C02_master_refinement and
    C10_lifetime_bridge carry these statements to the slot-level machine on every well-formed trace. *)
-From Coq Require Import List ZArith Bool.
+From Coq Require Import List ZArith Bool Sorting.Permutation Sorting.Sorted.
 From RxVerif Require Import Mux.Val Mux.Sim Mux.SimExt Mux.Ops Mux.Syntax Mux.ConfineProofs Mux.LocalSemProofs
-  Mux.MasterProofs Mux.OpsSpecProofs Mux.BatchProofs.
+  Mux.MasterProofs Mux.OpsSpecProofs Mux.BatchProofs Mux.Sort Mux.SortProofs.
 Import ListNotations.
 
 (* bridge: for every pipeline P, every well-formed trace t and every lifetime of a key k inside it,
@@ -98,6 +98,27 @@ Theorem C10_distinct_until_changed : forall (km : fn) (kf : val -> val), (forall
   items_of item (pipe_l (duc_ops km)) (its xs) = its (duc_spec kf None xs).
 Proof. exact duc_items. Qed.
 Print Assumptions C10_distinct_until_changed.
+
+(* sort (plain observables only: to_list, sorted, to_deque): whenever the key function gives an int for every
+   item, the model of sorted(items, key, reverse) that the correspondence check compares with the real
+   operator is a permutation of the items, ordered by the sort key (descending with reverse), with the items of
+   equal sort key in source order (reverse included) - and it is the only list with these properties *)
+Theorem C10_sort_stably_ordered_permutation : forall (f : option fn) (rev : bool) (kf : val -> Z) (xs : list val),
+  (forall x, In x xs -> key_res f x = Ok (VInt (kf x))) ->
+  exists ys, py_sorted f rev xs = Some ys
+    /\ Permutation ys xs
+    /\ StronglySorted (fun a b => before rev (kf a) (kf b) = true) ys
+    /\ (forall z, filter (fun a => (kf a =? z)%Z) ys = filter (fun a => (kf a =? z)%Z) xs)
+    /\ (forall ys', StronglySorted (fun a b => before rev (kf a) (kf b) = true) ys' ->
+          (forall z, filter (fun a => (kf a =? z)%Z) ys' = filter (fun a => (kf a =? z)%Z) xs) -> ys' = ys).
+Proof. exact py_sorted_spec. Qed.
+Print Assumptions C10_sort_stably_ordered_permutation.
+Theorem C10_sort_is_a_permutation : forall f rev xs ys, py_sorted f rev xs = Some ys -> Permutation ys xs.
+Proof. exact py_sorted_perm. Qed.
+Print Assumptions C10_sort_is_a_permutation.
+Example C10_example_sort_reverse_is_stable :
+  py_sorted (Some (FMod 3)) true [VInt 1; VInt 4; VInt 2; VInt 7] = Some [VInt 2; VInt 1; VInt 4; VInt 7].
+Proof. vm_compute. reflexivity. Qed.
 
 (* the local machines above are the ones `den` assigns to the operators *)
 Example C10_den_take n : bl item (den (OTake n)) = L_take n. Proof. reflexivity. Qed.
